@@ -224,6 +224,7 @@ func runC05(w *W) {
 	w.World.HashSeed = t.Draw(1<<32, "knob.hashseed") // which keys collide is an environment decision
 	so := tgenOpts{MaxStructs: 1 + t.Intn(3, "sch.structs"), MaxFields: 2 + t.Intn(8, "sch.fields"), MaxDepth: 1 + t.Intn(3, "sch.depth"),
 		BigIDs: t.Chance(1, 2, "sch.bigids"), ManyFields: t.Chance(1, 6, "sch.wide"), Recursive: t.Chance(1, 4, "sch.rec")}
+	so.ZeroID = t.Chance(1, 3, "sch.zeroid")
 	sch := genSchema(t, so)
 	opts := &generic.Options{StoreChildrenById: t.Chance(1, 2, "opt.byid"), StoreChildrenByHash: t.Chance(1, 2, "opt.byhash"),
 		NotScanParentNode: t.Chance(1, 4, "opt.notscan"), UseNativeSkip: t.Chance(1, 2, "opt.nativeskip")}
